@@ -89,7 +89,7 @@ def bad(draw):
     if sum(ws) == 0:
         ws[0] = 1
     kind = draw(st.sampled_from(["both", "long", "short", "zero", "negative", "nan", "inf", "long-cum", "short-cum", "zero-cum",
-                                 "neg-cum", "inf-cum", "overflow", "overflow", "nan-cum"]))
+                                 "neg-cum", "inf-cum", "overflow", "overflow", "nan-cum", "empty", "empty-cum"]))
     return {"kind": kind, "id": draw(st.text(max_size=8)), "pop": [draw(_vals) for _ in range(n)], "tuple": draw(st.booleans()),
             "ws": ws, "unhashable": draw(st.integers(0, 3)) == 0, "wtuple": draw(st.integers(0, 2)) == 0}
 
@@ -143,6 +143,15 @@ def judge(case):
                 a2 = dc(uid, pop, weights=ws_arg)
                 if not _is_elem(a, pop):
                     viol.append("result %r is not an element of the population" % (a,))
+                # every argument may be passed by name (also through functools.partial, as generated code passes population / weights)
+                import functools
+
+                a3 = dc(input_id=uid, population=pop, weights=ws_arg)
+                a4 = functools.partial(dc, input_id=uid, population=pop)(cum_weights=cum_arg)
+                a5 = functools.partial(dc, population=pop, weights=ws_arg)(uid)
+                if a3 is not a or a4 is not a or a5 is not a:
+                    viol.append("the same call with arguments passed by name selects another element (#%s / #%s / #%s instead of #%s)"
+                                % (getattr(a3, "i", a3), getattr(a4, "i", a4), getattr(a5, "i", a5), getattr(a, "i", a)))
                 if a is not b or a is not a2:
                     viol.append("weights=%r gave element #%s, cum_weights=%r gave #%s" % (ws, getattr(a, "i", a), cum, getattr(b, "i", b)))
                 if _is_elem(a, pop) and ws[a.i] == 0:
@@ -227,6 +236,10 @@ def judge(case):
             kw = {"weights": ws[:-1] + [float("nan")]}
         elif kind == "inf":
             kw = {"weights": ws[:-1] + [float("inf")]}
+        elif kind == "empty":
+            kw = {"weights": []}
+        elif kind == "empty-cum":
+            kw = {"cum_weights": []}
         elif kind == "overflow":
             # every weight is finite, their total is not (it overflows to inf): a non-finite total all the same
             kw = {"weights": [1e308, 1e308] + [float(w) for w in ws[2:]]} if n >= 2 else {"weights": [float("inf")]}
@@ -355,7 +368,7 @@ def selftest():
 
 def optimised_cases():
     out = []
-    for kind in ["both", "long", "short", "zero", "negative", "nan", "inf", "long-cum", "short-cum", "zero-cum", "neg-cum", "inf-cum", "overflow", "nan-cum"]:
+    for kind in ["both", "long", "short", "zero", "negative", "nan", "inf", "long-cum", "short-cum", "zero-cum", "neg-cum", "inf-cum", "overflow", "nan-cum", "empty", "empty-cum"]:
         for pop, ws in (([1, "a", None], [1, 2, 3]), ([0], [5]), (["x", "y"], [0, 4])):
             out.append({"kind": kind, "id": "u-%s" % kind, "pop": pop, "tuple": False, "ws": ws})
     out.append({"kind": "good", "id": "unit-1", "pop": [1, 2, 3], "tuple": True, "ws": [1, 0, 2.5], "c": 3, "seed": 1})
